@@ -19,6 +19,7 @@ LEVEL_TEXT = ("Deductive: contracts on the real key/geometry functions of the st
               "for all inputs (z3/cvc5). Bounded: the same contracts and a reference masked-array model evaluated on "
               "the real backends over small shapes/keys/operation sequences. 'other' because the class-level clause "
               "is decided only within bounds.")
+LEVEL_TEXT += (' Proved this way are also the slice expansions of both backends (DictArray._slice_indices, FileArray._slice_indices: one range per key position - an integer addresses itself, a slice what slice.indices gives for the size of the axis that the position indexes under the mask / in dump mode; slice.indices as three uninterpreted functions, ValueError for a zero step) and the delegation FileArray._normalize_key.')
 LEVEL_NOTE = ("Trusted: pyvc's encoding of Python semantics (DESIGN 2.1.7), z3/cvc5, spec-function axioms; numpy indexing, "
               "cloudpickle and the file system are outside the proof (assumed); zarr backends cannot be imported here.")
 TECHNIQUE = "contract-based deductive verification (self-generated VCs from the Python ast, z3/cvc5) + bounded contract checking"
